@@ -10,7 +10,7 @@ pids = [c["property_id"] for c in man["checks"]]
 
 
 def one(name):
-    d = "/dev/shm/cb_%s" % name
+    d = "/dev/shm/cb_%s_%d" % (name, os.getpid())
     shutil.rmtree(d, ignore_errors=True)
     os.makedirs(d)
     subprocess.run("git -C /repo archive HEAD miasm | tar -x -C %s" % d, shell=True, check=True)
